@@ -324,6 +324,7 @@ func checkRm(w *core.World, st *core.Step) {
 	idx1, ok1 := idx(st.Post)
 	wt0, wt1 := st.Pre.WT(), st.Post.WT()
 	sel := map[string]bool{}
+	optional := map[string]bool{}
 	var unknown []string
 	var classes []string
 	domainOK, dotOpen, typeConflict := true, false, false
@@ -335,6 +336,10 @@ func checkRm(w *core.World, st *core.Step) {
 		}
 		if _, tr := idx0[cp]; tr {
 			sel[cp] = true
+			// also a directory with tracked paths beneath (file/directory replaced): both readings accepted
+			for _, p := range trackedBeneath(idx0, cp) {
+				optional[p] = true
+			}
 			if IsDirOnDisk(st.Pre, cp) {
 				typeConflict = true
 			}
@@ -392,7 +397,7 @@ func checkRm(w *core.World, st *core.Step) {
 	c.Oracle("C04.rm.collateral")
 	for p, b := range wt0 {
 		nb, still := wt1[p]
-		if !still && !sel[p] {
+		if !still && !sel[p] && !optional[p] {
 			w.Fail("C04.rm.collateral", "unselected-file-deleted", trig, "%s deleted %q which it did not name (tracked: %v)", st.String(), p, idx0[p] != "")
 		} else if still && !bytes.Equal(b, nb) {
 			w.Fail("C04.rm.collateral", "file-modified", trig, "%s modified %q", st.String(), p)
@@ -404,6 +409,11 @@ func checkRm(w *core.World, st *core.Step) {
 		}
 	}
 	for p, id := range idx0 {
+		if optional[p] && !sel[p] {
+			if _, still := idx1[p]; !still || idx1[p] == id {
+				continue
+			}
+		}
 		if !sel[p] && idx1[p] != id {
 			w.Fail("C04.rm.collateral", "unselected-entry-changed", trig, "%s changed the staged entry %q which it did not name", st.String(), p)
 		}
@@ -462,6 +472,13 @@ func runC04(c *core.Ctx) {
 		k := NewWalker(w, gen.NameOpts{Space: true, NonASCII: w.Hist%3 == 0, Meta: w.Hist%2 == 0, MaxDepth: 4, N: 6 + w.Hist%5}, wts)
 		k.Hostile = 8
 		k.Swap = false
+		if w.Hist%5 == 2 {
+			k.Swap = true
+			k.Weights["edit-swap"] = 6
+			k.keys = append(k.keys, "edit-swap")
+			sort.Strings(k.keys)
+			k.total += 6
+		}
 		k.MaxContent = 5000
 		k.Init()
 		for i, p := range k.Pool {
